@@ -365,6 +365,96 @@ pure func renderNoEpoch(v Version) string {
 pure func render(v Version) string {
   v.Epoch > 0 || indexByte(v.Version, 58, 0) >= 0 ? itoa(v.Epoch) ++ ":" ++ renderNoEpoch(v) : renderNoEpoch(v) }
 
+
+// ---------- C03: rendering a parsed version and parsing it again gives the same version ----------
+
+// the text after the epoch: where its last hyphen is and what lies on either side of it
+lemma rt_body(v Version)
+  requires forall k int :: 0 <= k && k < len(v.Revision) ==> revchar(v.Revision[k])
+  ensures (len(v.Revision) > 0 || indexByte(v.Version, 45, 0) >= 0) ==>
+    lastIndexByte(renderNoEpoch(v), 45, len(renderNoEpoch(v))) == len(v.Version) &&
+    renderNoEpoch(v)[:len(v.Version)] == v.Version && renderNoEpoch(v)[len(v.Version)+1:] == v.Revision
+  ensures !(len(v.Revision) > 0 || indexByte(v.Version, 45, 0) >= 0) ==>
+    lastIndexByte(renderNoEpoch(v), 45, len(renderNoEpoch(v))) == -1 && renderNoEpoch(v) == v.Version
+  {
+    if len(v.Revision) > 0 || indexByte(v.Version, 45, 0) >= 0 {
+      assert forall j int :: len(v.Version) < j && j < len(v.Version) + 1 + len(v.Revision) ==> (v.Version ++ "-" ++ v.Revision)[j] == v.Revision[j - len(v.Version) - 1]
+      lastidx_is(v.Version ++ "-" ++ v.Revision, 45, len(v.Version) + 1 + len(v.Revision), len(v.Version))
+    } else {
+      forall j int { idx_least(v.Version, 45, 0, j) }
+      lastidx_none(v.Version, 45, len(v.Version))
+    }
+  }
+
+// with an epoch in front: the first colon is the one after the epoch, the epoch reads back as the number it was
+lemma rt_epoch(v Version)
+  requires (v.Epoch > 0 || indexByte(v.Version, 58, 0) >= 0) && 0 <= v.Epoch
+  ensures indexByte(render(v), 58, 0) == len(itoa(v.Epoch)) && render(v)[len(itoa(v.Epoch))+1:] == renderNoEpoch(v)
+  ensures alldig(render(v), 0, len(itoa(v.Epoch))) && val(render(v), 0, len(itoa(v.Epoch))) == v.Epoch && len(itoa(v.Epoch)) >= 1
+  {
+    let e = itoa(v.Epoch); let b = renderNoEpoch(v);
+    itoa_spec(v.Epoch)
+    assert len(e) >= 1 && alldig(e, 0, len(e)) && val(e, 0, len(e)) == v.Epoch
+    assert forall j int :: 0 <= j && j < len(e) ==> (e ++ ":" ++ b)[j] == e[j]
+    assert (e ++ ":" ++ b)[len(e)] == 58
+    idx_is(e ++ ":" ++ b, 58, 0, len(e))
+    val_cat(e ++ ":", b, len(e))
+    val_cat(e, ":", len(e))
+  }
+
+// without one: there is no colon at all
+lemma rt_noepoch(v Version)
+  requires !(v.Epoch > 0 || indexByte(v.Version, 58, 0) >= 0)
+  requires forall k int :: 0 <= k && k < len(v.Revision) ==> revchar(v.Revision[k])
+  ensures indexByte(render(v), 58, 0) == -1 && render(v) == renderNoEpoch(v)
+  {
+    forall j int { idx_least(v.Version, 58, 0, j) }
+    if len(v.Revision) > 0 || indexByte(v.Version, 45, 0) >= 0 {
+      assert forall j int :: 0 <= j && j < len(v.Version) ==> (v.Version ++ "-" ++ v.Revision)[j] == v.Version[j]
+      assert forall j int :: len(v.Version) < j && j < len(v.Version) + 1 + len(v.Revision) ==> (v.Version ++ "-" ++ v.Revision)[j] == v.Revision[j - len(v.Version) - 1]
+      idx_none(v.Version ++ "-" ++ v.Revision, 58, 0)
+    } else {
+      idx_none(v.Version, 58, 0)
+    }
+  }
+
+// THE ROUND TRIP (C03): for every version the parser can return, the rendered text is accepted again - it is well
+// formed and untouched by the trimming - and its parts are the version's parts. With Parse's contract (every
+// well-formed text is accepted and gives exactly vepoch / vupstream / vrevision of the trimmed text) this is
+// Parse(v.String()) == v, and likewise for the control marshalling pair.
+lemma rt_version(v Version)
+  requires okver(v) && 0 <= v.Epoch
+  ensures trimspace(render(v)) == render(v)
+  ensures vepoch(render(v)) == v.Epoch && vupstream(render(v)) == v.Version && vrevision(render(v)) == v.Revision
+  ensures wellformed(render(v))
+  {
+    rt_body(v)
+    if v.Epoch > 0 || indexByte(v.Version, 58, 0) >= 0 {
+      rt_epoch(v)
+      itoa_spec(v.Epoch)
+      assert vrest(render(v)) == renderNoEpoch(v)
+      assert render(v)[0] == itoa(v.Epoch)[0]
+    } else {
+      rt_noepoch(v)
+      assert vrest(render(v)) == renderNoEpoch(v)
+    }
+    assert vupstream(render(v)) == v.Version && vrevision(render(v)) == v.Revision
+    assert len(render(v)) >= 1 && isdig(render(v)[0])
+    assert len(render(v)) == (v.Epoch > 0 || indexByte(v.Version, 58, 0) >= 0 ? len(itoa(v.Epoch)) + 1 : 0) + len(renderNoEpoch(v))
+    assert render(v)[len(render(v)) - 1] == renderNoEpoch(v)[len(renderNoEpoch(v)) - 1]
+    if len(v.Revision) > 0 {
+      assert renderNoEpoch(v)[len(renderNoEpoch(v)) - 1] == v.Revision[len(v.Revision) - 1]
+    } else {
+      if indexByte(v.Version, 45, 0) >= 0 {
+        assert renderNoEpoch(v)[len(renderNoEpoch(v)) - 1] == 45
+      } else {
+        assert renderNoEpoch(v)[len(renderNoEpoch(v)) - 1] == v.Version[len(v.Version) - 1]
+      }
+    }
+    assert !isblank(render(v)[len(render(v)) - 1]) && render(v)[len(render(v)) - 1] < 128
+    assert trimlo(render(v)) == 0 && trimhi(render(v)) == len(render(v))
+  }
+
 func Version.StringWithoutEpoch
   ensures result == renderNoEpoch(v)
 
@@ -374,7 +464,7 @@ func Version.String
 func Version.MarshalControl
   ensures result0 == render(version) && result1 == nil
 
-property C03: lemma val_prefix, lemma alldig_prefix, lemma wf_chars, parseInto, Parse, (*Version).UnmarshalControl, Version.StringWithoutEpoch, Version.String, Version.MarshalControl
+property C03: lemma lastidx_is, lemma lastidx_none, lemma val_cat, lemma idx_least, lemma rt_body, lemma idx_is, lemma idx_none, lemma rt_epoch, lemma rt_noepoch, lemma rt_version, lemma val_prefix, lemma alldig_prefix, lemma wf_chars, parseInto, Parse, (*Version).UnmarshalControl, Version.StringWithoutEpoch, Version.String, Version.MarshalControl
 
 // the version parser as part of C18: total (no panic: every BOUNDS/NIL/OVERFLOW obligation), a value xor an error,
 // and no write outside the result (frames)
